@@ -62,6 +62,27 @@ class Alias(ast.NodeTransformer):
         return node
 
 
+class InsertLog(ast.NodeTransformer):
+    """Insert a print statement at a given position: 'top' of the function, or at the top of its k-th loop body."""
+    def __init__(self, fn, where):
+        self.fn, self.where, self.k = fn, where, -1
+
+    def visit_FunctionDef(self, node):
+        if node is not self.fn:
+            return node
+        stmt = ast.parse("print('probe: reached')").body[0]
+        if self.where == 'top':
+            k = 1 if node.body and isinstance(node.body[0], ast.Expr) and isinstance(node.body[0].value, ast.Constant) else 0
+            node.body.insert(k, stmt)
+            return node
+        idx = int(self.where[4:])
+        loops = [n for n in ast.walk(node) if isinstance(n, (ast.For, ast.While))]
+        loops.sort(key=lambda n: (n.lineno, n.col_offset))
+        if idx < len(loops):
+            loops[idx].body.insert(0, stmt)
+        return node
+
+
 def params_of(fn):
     from avs.core.canon import _binding_counts
     cnt = _binding_counts(fn)
@@ -74,6 +95,7 @@ MODE = 'rename'
 def job(args):
     prop, rel, qual, old = args
     alias = old.startswith('alias:')
+    ins = old.startswith('insert:')
     old = old.split(':')[-1]
     base = Source()
     tree = ast.parse(base.text(rel))
@@ -84,7 +106,7 @@ def job(args):
             target = n
     if target is None:
         return (prop, rel, qual, old, 'skip', '')
-    (Alias(target, old) if alias else Ren(target, old, old + '_r')).visit(tree)
+    (InsertLog(target, old) if ins else (Alias(target, old) if alias else Ren(target, old, old + '_r'))).visit(tree)
     ast.fix_missing_locations(tree)
     text = ast.unparse(tree)
     try:
@@ -107,6 +129,7 @@ def job(args):
 def main():
     props = [a for a in sys.argv[1:] if not a.startswith('--')]
     alias = '--alias' in sys.argv
+    insert = '--insert' in sys.argv
     jobs = []
     for prop in props:
         src = Source()
@@ -118,6 +141,11 @@ def main():
             try:
                 fn = src.func(rel, q)
             except AnalysisError:
+                continue
+            if insert:
+                nloops = sum(1 for n in ast.walk(fn) if isinstance(n, (ast.For, ast.While)))
+                for w in ['top'] + [f'loop{k}' for k in range(min(nloops, 6))]:
+                    jobs.append((prop, rel, q, 'insert:' + w))
                 continue
             for name in (params_of(fn) if alias else locals_of(fn)):
                 jobs.append((prop, rel, q, ('alias:' if alias else '') + name))
